@@ -26,7 +26,7 @@ na = [{"property_id": p, "reason": NOT_APPLICABLE.get(p, "check not built yet in
       for p in props if p not in CHECKS]
 m = {
     "version": 1,
-    "setup_cmd": "cd /verif/harness && GOFLAGS=-mod=mod GOPROXY=off GOSUMDB=off GOTOOLCHAIN=local go test -tags verif -count=1 -run XXX_NONE ./... && cd /verif && ./setup_extra.sh",
+    "setup_cmd": "cd /verif/harness && export GOFLAGS=-mod=mod GOPROXY=off GOSUMDB=off GOTOOLCHAIN=local && go test -tags verif -count=1 -exec /bin/true ./... && go test -tags verif -race -count=1 -exec /bin/true ./racesim && cd /verif && ./setup_extra.sh",
     "hooks": {
         "guard": "verif",
         "enable": "go build tag: go test -tags verif (harness module /verif/harness, replace tkestack.io/galaxy => /repo)",
